@@ -18,7 +18,7 @@ package network
 //@ spec soundPath(d *Driver, p []string, cur string, tgt string) bool := len(p) >= 1 && p[0] == cur && p[len(p)-1] == tgt && (forall i int :: 0 <= i && i < len(p) - 1 ==> linked(d, p[i], p[i+1]))
 
 // G(d, a, b): the privilege graph has an edge a -> b; chainG: consecutive levels of a list are joined by edges
-//@ spec G(d *Driver, a string, b string) bool := get(d.privGraph, a) != nil && has(get(d.privGraph, a), b)
+//@ spec G(d *Driver, a string, b string) bool := has(d.privGraph, a) && get(d.privGraph, a) != nil && has(get(d.privGraph, a), b)
 //@ spec chainG(d *Driver, p []string) bool := forall i int :: 0 <= i && i < len(p) - 1 ==> G(d, p[i], p[i+1])
 // graphOK: every edge of the graph joins a level and its previous level (what buildPrivGraph builds from a well-formed
 // level map; object invariant of a network driver after UpdatePrivileges)
@@ -149,6 +149,21 @@ package network
 
 // ---- C19: the network constructor builds the generic driver from the same host and options, applies every option in order to
 // the network driver, refuses to go on without levels and a default level, and builds the privilege graph -----------------------
+// levelsOK: every level is stored under its own name and its previous level, when it has one, is a level too (what the data
+// obligations of C17 establish for the shipped definitions); nodesOK: one adjacency map per node, none shared
+//@ spec levelsOK(d *Driver) bool := forall n string :: {has(d.PrivilegeLevels, n)} has(d.PrivilegeLevels, n) ==> get(d.PrivilegeLevels, n) != nil && get(d.PrivilegeLevels, n).Name == n && (get(d.PrivilegeLevels, n).PreviousPriv != "" ==> has(d.PrivilegeLevels, get(d.PrivilegeLevels, n).PreviousPriv))
+//@ spec nodesOK(d *Driver) bool := d.privGraph != nil && (forall a string :: {has(d.privGraph, a)} has(d.privGraph, a) ==> get(d.privGraph, a) != nil && has(d.PrivilegeLevels, a)) && (forall a string, b string :: {get(d.privGraph, a), get(d.privGraph, b)} has(d.privGraph, a) && has(d.privGraph, b) && a != b ==> get(d.privGraph, a) != get(d.privGraph, b))
+//@ spec edgesOK(d *Driver) bool := forall a string, b string :: {G(d, a, b)} G(d, a, b) ==> linked(d, a, b) && has(d.privGraph, b)
+//@ func (*Driver).buildPrivGraph [C04 C17]
+//@   requires levelsOK(d)
+//@   ensures #every-edge-joins-a-level-and-its-previous-level graphOK(d)
+//@   ensures #every-level-is-a-node forall n string :: has(d.PrivilegeLevels, n) ==> has(d.privGraph, n)
+//@   loop 1 invariant levelsOK(d) && isnew(d.privGraph) && nodesOK(d) && (forall a string :: {has(d.privGraph, a)} has(d.privGraph, a) ==> isnew(get(d.privGraph, a)) && alive(get(d.privGraph, a)))
+//@   loop 1 invariant #so-far-only-edges-to-the-previous-level forall a string, b string :: {G(d, a, b)} G(d, a, b) ==> prevOf(d, a) == b && b != ""
+//@   loop 1 invariant #every-level-seen-is-a-node forall n string :: {visited(n)} visited(n) ==> has(d.privGraph, n)
+//@   loop 2 invariant levelsOK(d) && isnew(d.privGraph) && nodesOK(d) && edgesOK(d) && (forall n string :: has(d.PrivilegeLevels, n) ==> has(d.privGraph, n)) && (forall a string :: {has(d.privGraph, a)} has(d.privGraph, a) ==> isnew(get(d.privGraph, a)) && alive(get(d.privGraph, a)))
+//@   loop 3 invariant levelsOK(d) && isnew(d.privGraph) && nodesOK(d) && edgesOK(d) && (forall n string :: has(d.PrivilegeLevels, n) ==> has(d.privGraph, n)) && (forall a string :: {has(d.privGraph, a)} has(d.privGraph, a) ==> isnew(get(d.privGraph, a)) && alive(get(d.privGraph, a)))
+//@   loop 3 invariant has(d.privGraph, higherPrivLevel) && privLevelList == get(d.privGraph, higherPrivLevel)
 //@ func (*Driver).UpdatePrivileges
 //@   noverify
 // optBase: ghost - the option log as the generic constructor left it
